@@ -255,9 +255,11 @@ def opPlan : RM Res := do
 
 /-- `plan_sched => #first #n outcomes…` -/
 def opPlanSched : RM Res := do
+  let free ← rB     -- no obstacles: no random re-planning is needed (the premise of the scheduling clause)
   expect "=>"
   let first ← rB
   let os ← rList rB
-  pure { corr := "OK", preds := [P "C12.schedule" (os.all (· == first), s!"success of planning varies with the pool size / repetition: first {first}, others {os}")], tags := ["n=1"] }
+  let preds := if free then [P "C12.schedule" (os.all (· == first), s!"success of planning varies with the pool size / repetition: first {first}, others {os}")] else []
+  pure { corr := "OK", preds := preds, tags := ["n=1", s!"varies={!(os.all (· == first))}"] }
 
 end Opw.Drv
